@@ -2,7 +2,7 @@
    the C06 correspondence check, and the C06 oracles (specification evaluated on
    the implementation's observed answers). *)
 From Coq Require Import NArith ZArith List Bool PrimFloat.
-From XV Require Import Base.Str Base.Dec Base.PyInt Base.Eqb Model.Dates Spec.XsdDates.
+From XV Require Import Base.Str Base.Dec Base.PyInt Base.Eqb Model.Dates Model.DatesStd Spec.XsdDates.
 Import ListNotations.
 Open Scope Z_scope.
 
@@ -225,6 +225,81 @@ Definition oracle_time_std (c : list (option Z) * list (option Z) * list (option
       || (loZ_eqb v back
           && loZ_eqb t [Some (t_hour x); Some (t_minute x); Some (t_second x); Some (t_frac x / 1000);
                         match t_offset x with Some o => Some (o * 60) | None => None end])
+  | None => false
+  end.
+
+(* ---- standard-library conversions: model = implementation (Model/DatesStd.v) ---- *)
+(* observed: None = the conversion raised; Some (fields of the stdlib object with utcoffset in SECONDS,
+   the value converted back) *)
+Definition off_secs (o : option Z) : option Z := option_map (fun z => z * 60) o.
+Definition pydt_tuple (p : pydatetime) : list (option Z) :=
+  [Some (sd_year p); Some (sd_month p); Some (sd_day p); Some (sd_hour p); Some (sd_minute p); Some (sd_second p);
+   Some (sd_us p); off_secs (sd_off p)].
+Definition pyt_tuple (q : pytime) : list (option Z) :=
+  [Some (q_hour q); Some (q_minute q); Some (q_second q); Some (q_us q); off_secs (q_off q)].
+Definition agree_datetime_std (c : list (option Z) * option (list (option Z) * list (option Z))) : bool :=
+  let '(v, obs) := c in
+  match of_datetime_tuple v with
+  | Some x =>
+      match datetime_to_std x, obs with
+      | None, None => true
+      | Some p, Some (fields, back) =>
+          loZ_eqb (pydt_tuple p) fields && loZ_eqb (datetime_tuple (datetime_from_std p)) back
+      | _, _ => false
+      end
+  | None => false
+  end.
+Definition agree_time_std (c : list (option Z) * option (list (option Z) * list (option Z))) : bool :=
+  let '(v, obs) := c in
+  match of_time_tuple v with
+  | Some x =>
+      match time_to_std x, obs with
+      | None, None => true
+      | Some q, Some (fields, back) =>
+          loZ_eqb (pyt_tuple q) fields && loZ_eqb (time_tuple (time_from_std q)) back
+      | _, _ => false
+      end
+  | None => false
+  end.
+(* XmlDate: to_date, to_datetime and both ways back *)
+Definition agree_date_std (c : list (option Z) * option (list (option Z) * list (option Z) * list (option Z) * list (option Z))) : bool :=
+  let '(v, obs) := c in
+  match of_date_tuple v with
+  | Some x =>
+      match date_to_date x, date_to_datetime x, obs with
+      | None, _, None | _, None, None => true
+      | Some r, Some p, Some (dfields, dtfields, back_d, back_dt) =>
+          loZ_eqb [Some (r_year r); Some (r_month r); Some (r_day r)] dfields
+          && loZ_eqb (pydt_tuple p) dtfields
+          && loZ_eqb (date_tuple (date_from_date r)) back_d
+          && loZ_eqb (date_tuple (date_from_datetime p)) back_dt
+      | _, _, _ => false
+      end
+  | None => false
+  end.
+(* the specification's microsecond timeline is CPython's: (fields with utcoffset seconds, (obj - epoch) in us) *)
+Definition oracle_std_instant (c : list (option Z) * Z) : bool :=
+  match fst c with
+  | [Some y; Some m; Some d; Some h; Some mi; Some s; Some us; o] =>
+      instant_us y m d h mi s us (option_map (fun z => z / 60) o) =? snd c + epoch_days * 86400 * 1000000
+  | _ => false
+  end.
+(* XmlTime.now(tz) / utcnow() / XmlDateTime.now(tz): (expected offset, value, wall-clock us-of-day of
+   reference readings of datetime.now(tz) taken before and after) *)
+Definition oracle_time_now (c : option Z * list (option Z) * Z * Z) : bool :=
+  let '(tz, t, lo, hi) := c in
+  match of_time_tuple t with
+  | Some x =>
+      let tod := ((t_hour x * 3600 + t_minute x * 60 + t_second x) * 1000000 + t_frac x / 1000) in
+      opt_eqb Z.eqb (t_offset x) tz && ((hi <? lo) || ((lo <=? tod) && (tod <=? hi)))
+  | None => false
+  end.
+Definition oracle_datetime_now (c : option Z * list (option Z) * Z * Z) : bool :=
+  let '(tz, t, lo, hi) := c in
+  match of_datetime_tuple t with
+  | Some x =>
+      let tod := ((dt_hour x * 3600 + dt_minute x * 60 + dt_second x) * 1000000 + dt_frac x / 1000) in
+      opt_eqb Z.eqb (dt_offset x) tz && ((hi <? lo) || ((lo <=? tod) && (tod <=? hi)))
   | None => false
   end.
 
